@@ -32,6 +32,10 @@ Reset0 ==
   /\ cut' = [t \in Tasks |-> "none"]
   /\ ev' = [a |-> "Init"]
 
+\* a batch command of the log without the guard (Batch2 derives it from the pre-batch row;
+\* Conform then compares the whole event, guards included)
+BCmdOf(c) == [a |-> c.a, t |-> c.t, rg |-> c.rg, k |-> c.k]
+
 Step(e) ==
   CASE e.a = "Init"       -> Reset0
     [] e.a = "Create"     -> Create(e.t, e.rg)
@@ -46,6 +50,7 @@ Step(e) ==
     [] e.a = "Abort"      -> Abort(e.t, e.tg, e.rg)
     [] e.a = "GC"         -> GC(e.lim, e.old)
     [] e.a = "Ext"        -> Ext(e.k)
+    [] e.a = "Batch2"     -> Batch2(BCmdOf(e.cs[1]), BCmdOf(e.cs[2]))
 
 TraceNext == l <= Len(Log) /\ l' = l + 1 /\ Step(Log[l].ev)
 
@@ -55,6 +60,7 @@ TraceSpec == TraceInit /\ [][TraceNext]_<<vars, l>>
 Conform ==
   l > 1 /\ Log[l - 1].ev.a # "Init" =>
     /\ ev.res = Log[l - 1].ev.res
+    /\ (ev.a = "Batch2" => ev.cs = Log[l - 1].ev.cs)
     /\ Proj = Log[l - 1].st
 
 \* Acceptance: every line was consumed.
